@@ -155,6 +155,7 @@ func isStartTLSConn(conn net.Conn) bool {
 //@   callsite io.MultiReader(readers []io.Reader) requires len(readers) == 2 && isBytesBuffer(readers[0]) && !__called("Client")
 //@   callsite Reader.Reset requires __called("Client")
 //@   ensures[C17] __called("Reader.Reset") && __called("Client")
+//@   ensures[C17] c.state == old(c.state) && c.mailbox == old(c.mailbox)
 //@   panics assumed-unreachable io.CopyN of exactly Buffered() bytes from a bufio.Reader into a bytes.Buffer cannot fail (stdlib contract)
 
 //@ func (c *Client) handleESearch() (err error)
